@@ -61,6 +61,10 @@ CLAIMED = {
    text="Machine-checked Lean 4 proof over the randomness-script model: a full read returns exactly the bytes the source delivered and leaves a suffix (consecutive operations use disjoint consecutive segments); Seal's shuffle draws, ephemeral key and payload key, and a signature's header nonce, are exactly those reads in that order; an error or short read before the requested count fails the read and Seal returns an error; chunk, signcryption, payload-key-box and MAC-key-box nonces are injective in their counters below the overflow guard, the sender-secretbox nonce differs from every chunk nonce, and the encoder refuses packet numbers at the guard. Tied to /repo by byte-exact sealing/signing under scripted crypto/rand (pins the draw order), a fault (error / short+error / exhausted) at every read of every sealing/signing entry point, and repeated identical calls with the real source.",
    note="The source itself (uniform, non-repeating) is trusted. For armored streams the armor header sentence is written before randomness is drawn (observed, harmless).",
    technique="Lean 4 proof (structural induction over the read script; injectivity of counters) + fault-injection differential correspondence", design="§7 C18"),
+ "C09": dict(
+   text="Machine-checked Lean 4 proof: the code-model receivers accept ANY valid chunk plan (any cut of the plaintext, final marker on the last chunk; V1 empty terminator; V2 no empty chunk except the empty message) for encryption (every recipient position), attached signatures (also any minor version) and signcryption, returning the concatenation of the chunks and the right attribution; the shipped validator ignores the minor version; the typed views ignore extra trailing elements in version pairs, headers, recipient pairs and payload packets of every mode/version. Tied to /repo by an independent reference sender written in Lean from specs/*.md with its own constants (Model/Spec.lean): random chunkings incl. all-1-byte chunks, unknown minors, 0-3 extras at each of the three places, all four modes, every opener kind - its messages are fed to Open/Verify/VerifyDetached/SigncryptOpen and must be accepted with the same plaintext and attribution (and the code model must agree).",
+   note="The link 'reference sender output = sealPacketsPlan + extras' is by correspondence (both are run), not a theorem. Assumes Prims.Lawful, NoSpuriousOpen, NoIdentifierCollision as C01/C03.",
+   technique="Lean 4 proof (round trips generalised to arbitrary valid chunk plans; view lemmas) + independent reference encoder differential", design="§7 C09"),
 }
 
 ALL = ["C%02d" % i for i in range(1, 21)]
